@@ -12,7 +12,8 @@
 From Verif Require Import Common C07_Model.
 
 (* ---- equality tests ---- *)
-Definition ctx_eqb (a b : ctx) : bool := N.eqb (c_tag a) (c_tag b) && N.eqb (c_group a) (c_group b).
+Definition ctx_eqb (a b : ctx) : bool :=
+  N.eqb (c_tag a) (c_tag b) && N.eqb (c_group a) (c_group b) && Bool.eqb (c_sync a) (c_sync b).
 Definition ctxs_eqb : list ctx -> list ctx -> bool := list_eqb ctx_eqb.
 Definition ns_eqb : list N -> list N -> bool := list_eqb N.eqb.
 
@@ -205,11 +206,29 @@ Definition P_set (i : sinput) (o : sobs) : bool :=
    stored contexts and monitor ids), so nothing of the model is needed to say what a step may
    do.  A head whose hook fails stays at the head and must keep, as its stored contexts,
    exactly what was delivered (they are delivered again by the retry); a head whose run
-   succeeds is removed by the worker. *)
+   succeeds is removed by the worker.
+
+   "When the head task of a queue is EXECUTED ... are merged into it": merging is tied to an
+   execution of the head.  Not every head is executed (HOOKS.md, kubernetes bindings): the
+   Synchronization task of a binding with `executeHookOnSynchronization: false` is not, and hooks
+   with a v0 config are never executed on Synchronization.  Such a head is done at once: there is
+   no run, the head leaves the queue, NOTHING is merged into it - every other task of every queue
+   keeps its place (and is executed in its turn, by the steps that follow).
+
+   Which of the following tasks an executed head takes in, beyond "same hook, same task type":
+   - the Synchronization of a binding without group is never combined (the property's anchor
+     "no combine for ungrouped Synchronization"): it is run with its own contexts;
+   - an executed Synchronization head stops in front of a Synchronization that is itself not to be
+     executed (it must not reach the hook through a neighbour);
+   - hooks with a v0 config predate combining (no groups, one context per run): the operator runs
+     each of their tasks alone.  The text does not mention config versions; for v0 hooks both the
+     plain reading (the block is merged) and "nothing is merged" are accepted - neither loses a
+     context. *)
 Definition task_eqb (a b : task) : bool :=
   N.eqb (t_id a) (t_id b) && N.eqb (t_hook a) (t_hook b) && N.eqb (t_ty a) (t_ty b)
   && Bool.eqb (t_meta a) (t_meta b) && ctxs_eqb (t_ctxs a) (t_ctxs b)
-  && ns_eqb (t_mids a) (t_mids b) && N.eqb (t_qn a) (t_qn b).
+  && ns_eqb (t_mids a) (t_mids b) && N.eqb (t_qn a) (t_qn b)
+  && Bool.eqb (t_kube a) (t_kube b) && N.eqb (t_group a) (t_group b) && Bool.eqb (t_exec a) (t_exec b).
 Definition tasks_eqb : list task -> list task -> bool := list_eqb task_eqb.
 
 (* queue [n] is, task for task, what it was *)
@@ -219,13 +238,49 @@ Definition same_queue (before after : qset) (n : N) : bool :=
   | _, _ => false
   end.
 
+(* a task of a kubernetes binding carries at least one binding context *)
+Definition has_ctx (t : task) : bool := negb (t_kube t) || negb (is_nil (t_ctxs t)).
+
 Definition wf_state (qs : qset) : bool :=
   nodupb (map fst qs) && negb (mem_N 0 (map fst qs)) && nodupb (all_ids qs)
-  && forallb (fun p => forallb t_meta (snd p)) qs.
+  && forallb (fun p => forallb (fun t => t_meta t && has_ctx t) (snd p)) qs.
 
 Definition nostop (_ : task) : bool := false.
+Definition stop_all (_ : task) : bool := true.
 
-Definition P_step (qs : qset) (st : ostep) (o : ostepobs) : bool :=
+(* the task is a Synchronization task: its (first) context is a kubernetes Synchronization *)
+Definition synchronization (t : task) : bool :=
+  match t_ctxs t with c :: _ => c_sync c | [] => false end.
+(* a Synchronization that is not to be executed because its binding says so *)
+Definition exempt (t : task) : bool := synchronization t && negb (t_exec t).
+(* the head [t] is NOT executed; [v0]: its hook has a v0 config *)
+Definition not_executed (v0 : bool) (t : task) : bool :=
+  synchronization t && (v0 || negb (t_exec t)).
+(* where the block behind an executed head [t] of a v1 hook ends, beyond hook and type *)
+Definition stop_rule (t : task) : task -> bool :=
+  if t_kube t && synchronization t && N.eqb (t_group t) 0 then stop_all
+  else if synchronization t then exempt
+  else nostop.
+
+(* the head [t] of queue [qn] = [t :: rest] was executed and took in the block delimited by [sp] *)
+Definition executed_with (sp : task -> bool) (t : task) (rest : list task) (qn : N) (o : ostepobs) : bool :=
+  let b := block sp t rest in
+  let C := t_ctxs t ++ flat_map t_ctxs b in
+  match st_runs o, queue_named qn (st_state o) with
+  | [r], Some q' =>
+      N.eqb (ru_hook r) (t_hook t)
+      && left_out_ok C (ru_ctxs r)
+      && (is_nil b || ctxs_eqb (ru_ctxs r) (spec_compact C))
+      && tasks_eqb q'
+           ((if st_success o then []
+             else [mkTaskK (t_id t) (t_hook t) (t_ty t) true (ru_ctxs r)
+                           (t_mids t ++ flat_map t_mids b) (t_qn t) (t_kube t) (t_group t) (t_exec t)])
+            ++ after_block sp t rest)
+  | _, _ => false
+  end.
+
+(* [v0s]: the hooks with a v0 config *)
+Definition P_step (v0s : list N) (qs : qset) (st : ostep) (o : ostepobs) : bool :=
   if wf_state qs then
     let names := map fst qs in
     let after := st_state o in
@@ -237,37 +292,39 @@ Definition P_step (qs : qset) (st : ostep) (o : ostepobs) : bool :=
                (* a run in queue qn never touches a queue its task does not name *)
                forallb (fun n => N.eqb n qn || N.eqb n (t_qn t) || same_queue qs after n) names
                && (if N.eqb (t_ty t) 0 && N.eqb (t_qn t) qn then
-                     (* the head task of the queue its name points to is executed *)
-                     let b := block nostop t rest in
-                     let C := t_ctxs t ++ flat_map t_ctxs b in
-                     match st_runs o, queue_named qn after with
-                     | [r], Some q' =>
-                         N.eqb (ru_hook r) (t_hook t)
-                         && left_out_ok C (ru_ctxs r)
-                         && (is_nil b || ctxs_eqb (ru_ctxs r) (spec_compact C))
-                         && tasks_eqb q'
-                              ((if st_success o then []
-                                else [mkTask (t_id t) (t_hook t) (t_ty t) true (ru_ctxs r)
-                                             (t_mids t ++ flat_map t_mids b) (t_qn t)])
-                               ++ after_block nostop t rest)
-                     | _, _ => false
-                     end
+                     let v0 := mem_N (t_hook t) v0s in
+                     if not_executed v0 t then
+                       (* the head is not executed: no run, it is done, it leaves, nothing is merged -
+                          the queue is exactly the tasks that stood behind it (the other queues: above) *)
+                       is_nil (st_runs o) && st_success o
+                       && match queue_named qn after with
+                          | Some q' => tasks_eqb q' rest
+                          | None => false
+                          end
+                     else if v0 then
+                       executed_with stop_all t rest qn o || executed_with nostop t rest qn o
+                     else
+                       (* the head task of the queue its name points to is executed *)
+                       executed_with (stop_rule t) t rest qn o
                    else true)
            | _ =>
                (* no such queue or nothing in it: nothing is executed, nothing changes *)
                is_nil (st_runs o) && forallb (same_queue qs after) names
            end
        | SLoose t ok =>
-           if t_meta t && negb (mem_N (t_id t) (all_ids qs)) then
+           if t_meta t && has_ctx t && negb (mem_N (t_id t) (all_ids qs)) then
              forallb (fun n => N.eqb n (t_qn t) || same_queue qs after n) names
              && match queue_named (t_qn t) qs with
                 | None =>
-                    (* the task is in no queue: it is run with its own contexts, nothing merged
-                       (and, by the line above, every queue is what it was) *)
-                    match st_runs o with
-                    | [r] => N.eqb (ru_hook r) (t_hook t) && ctxs_eqb (ru_ctxs r) (t_ctxs t)
-                    | _ => false
-                    end
+                    (* the task is in no queue: it is run with its own contexts (unless it is not to
+                       be executed at all), nothing merged (and, by the line above, every queue is
+                       what it was) *)
+                    if not_executed (mem_N (t_hook t) v0s) t then is_nil (st_runs o)
+                    else
+                      match st_runs o with
+                      | [r] => N.eqb (ru_hook r) (t_hook t) && ctxs_eqb (ru_ctxs r) (t_ctxs t)
+                      | _ => false
+                      end
                 | Some _ => true
                 end
            else true
@@ -275,9 +332,9 @@ Definition P_step (qs : qset) (st : ostep) (o : ostepobs) : bool :=
   else true.
 
 (* a session: every step against the state observed after the previous one *)
-Fixpoint P_session (qs : qset) (steps : list ostep) (obs : list ostepobs) : bool :=
+Fixpoint P_session (v0s : list N) (qs : qset) (steps : list ostep) (obs : list ostepobs) : bool :=
   match steps, obs with
   | [], [] => true
-  | st :: r, o :: ro => P_step qs st o && P_session (st_state o) r ro
+  | st :: r, o :: ro => P_step v0s qs st o && P_session v0s (st_state o) r ro
   | _, _ => false
   end.
